@@ -26,7 +26,7 @@ Extraction "../ocaml/extracted/hb.ml"
   Table.table_step MultisetSpec.tspec_accepts MultisetSpec.meq MultisetSpec.msub
   Clone.clone_table Clone.clone_from Clone.map_eq Par.split_leaves Serde.deser_map
   Addr.bucket_ptr Addr.bucket_as_ptr Addr.elem_range Addr.ctrl_align
-  Entry2.rustc_step Entry2.raw_step Entry2.raw_get
+  Entry2.rustc_step Entry2.raw_step Entry2.raw_step_hashed Entry2.raw_get
   Digest.map_step_digest
   PanicOps.m_retain_p PanicOps.m_extract_p PanicOps2.m_extend_p PanicOps2.eref_into_p_step PanicOps2.m_entry_replace_p PanicOps2.m_entry_and_modify_p
   OwnIter.into_iter_consume OwnIter.drain_consume OwnIter.into_iter_leak OwnIter.drain_leak.
